@@ -109,6 +109,8 @@ class Run:
         self.ticks_run = 0
         self.idle_actions: List[tuple] = []
         self.future_done_while_live = False
+        self.paused_log: List[tuple] = []   # (tick, number of events so far, paused flag) after every tick/request
+        self.events: List[tuple] = []       # time-ordered ('req', Req) / ('policy', kind) with trace length
         self.proc = make(self.loop) if make else prog(loop=self.loop)
         p = self.proc
         self.samples.append(p.state)
@@ -137,6 +139,7 @@ class Run:
             self.samples.append(st)
         if not p.has_terminated() and p.future().done():
             self.future_done_while_live = True
+        self.paused_log.append((self.tick, len(self.events), p.paused))
         if p.has_terminated() and self.terminal_tick is None:
             self.terminal_tick = self.tick
             self.trace_len_at_terminal = len(programs.TRACE)
@@ -146,6 +149,7 @@ class Run:
         p = self.proc
         r.applied = True
         r.tick = self.tick
+        self.events.append(('req', r, len(programs.TRACE)))
         wf = getattr(getattr(p, '_state', None), '_waiting_future', None)
         r.pre = dict(
             state=p.state, paused=p.paused, terminated=p.has_terminated(),
@@ -179,6 +183,7 @@ class Run:
         except Exception as e:  # noqa: BLE001
             r.exc = e
         r.post_state = p.state
+        r.post_paused = p.paused
         self.sample()
 
     # --- main loop ------------------------------------------------------------
@@ -187,17 +192,18 @@ class Run:
         p = self.proc
         n = self.tick
         if p.paused and self.auto_play:
-            self.idle_actions.append(('play', n))
+            self.events.append(('policy_play', None, len(programs.TRACE)))
+            self.idle_actions.append(('play', n, len(programs.TRACE)))
             p.play()
             return True
         if p.state == S.WAITING and self.auto_resume and not p.paused:
             fut = getattr(p, 'fut', None)
             if fut is not None and not fut.done():
-                self.idle_actions.append(('complete_future', n))
+                self.idle_actions.append(('complete_future', n, len(programs.TRACE)))
                 fut.set_result(self.resume_default)
                 return True
             if fut is None and self.auto_resumed < 6:
-                self.idle_actions.append(('resume', n))
+                self.idle_actions.append(('resume', n, len(programs.TRACE)))
                 self.auto_resumed += 1
                 p.resume(self.resume_default)
                 return True
